@@ -21,6 +21,7 @@ type scriptOpts struct {
 	visitText   bool // lines render visited_count/visited
 	enterProbe  bool // every node starts with <<call enter("title")>>
 	noCommands  bool
+	firstLine   bool                                // every node starts with a line: no cycle of jumps can run without yielding
 	endWithJump int                                 // n > 0: a node body ends with a jump in n of n+1 cases
 	random      bool                                // use dice/random/random_range in lines, sets and conditions
 	extraStmt   func(g *scriptGen, depth int) *Stmt // property-specific statements
@@ -298,7 +299,7 @@ func genScript(t *rapid.T, o scriptOpts) *Script {
 		if o.enterProbe {
 			node.Body = append(node.Body, &Stmt{K: "call", Fn: "enter", Args: []*Expr{str(node.Title)}})
 		}
-		if rapid.IntRange(0, 6).Draw(t, "firstline") != 0 {
+		if o.firstLine || rapid.IntRange(0, 6).Draw(t, "firstline") != 0 {
 			node.Body = append(node.Body, &Stmt{K: "line", Text: g.lineText()})
 		}
 		for _, s := range g.body(0, 0) {
